@@ -566,6 +566,12 @@ func (e *env) recv(l int, tok, rk string, to int, amt int64, memo string, snd in
 	if !relFrame(rel0, e.relSet(), "", "") {
 		e.out.Violate("recv: an inbound packet changed the tracking records of outbound transfers")
 	}
+	if ackS == "ok" && memo == "callrev" {
+		e.out.Violate(fmt.Sprintf("recv: the memo call reverted but the packet was acknowledged successfully and its credit kept (%s)", class))
+	}
+	if ackS == "ok" && memo == "callok" && e.marker() != m0+1 {
+		e.out.Violate(fmt.Sprintf("recv: success acknowledgement but the memo call ran %d times (%s)", e.marker()-m0, class))
+	}
 	if e.marker() != m0 {
 		// a memo call ran: who was the caller?
 		c := e.lastCaller()
